@@ -213,6 +213,24 @@ WALK_TEXT = ("  Walks: TLC -simulate on Walk.tla generates defined chains of ope
              "in behaviour mode; this check owns the %s steps.")
 
 
+EXTRA_TEXT = {
+    "C01": "  Also: the independence of the nine base dimensions and the distinctness of their indices are specification (Trace_BaseDims.tla, compiler read-out); "
+           "quotients of library units against the unit they would equal if two base dimensions were one; data_in forms; twins of distinct compound units of equal magnitude.",
+    "C02": "  Also: SI / IEC prefix factors (Trace_Prefixes.tla) and base-dimension independence (Trace_BaseDims.tla) are specification, not inputs; powers of powers and of "
+           "products, singular-name spellings of products and integer powers, same-magnitude different-dimension pairs must be inequivalent.",
+    "C07": "  Also: every nesting that shares members, nested cofactors, the common_unit() / make_common() spellings (makers, symbols), std::common_type symmetry for equal reps, "
+           "operator result units, equal-size scaled units on different bases.",
+    "C09": "  Rep-changing conversions (unsigned narrowing over the full source range, widening and floating destinations) with the domain evaluated in the library's "
+           "common point unit (read out); mixed comparisons with an unsigned common rep.",
+    "C15": "  Also: integral reps through abs/min/max/clamp/fmod/remainder/hypot/copysign, result units of min/max/clamp for operands of three different units (quantities and "
+           "points), exact ties of remainder, rounding at the edge of the floating integer range, inversions with K up to 7e18.",
+    "C18": "  Also: SI / IEC prefix symbols (Trace_Prefixes.tla), labels of common units element-wise (Trace_CULabels.tla), units with an empty label in the streaming sweep; a program "
+           "that reads the labels must link at C++14.",
+    "C20": "  The generated text must consist of exactly the code lines and system includes of the closure's files in the emitted order (independent re-reading of the headers); "
+           "every name a selected header defines must be usable through the single file.",
+}
+
+
 def main():
     checks = []
     for pid in ALL:
@@ -226,7 +244,7 @@ def main():
             "evidence_file": "/verif/evidence/%s.json" % pid,
             "replay_cmd_template": "./check %s --replay {path}" % pid,
             "engine": "tlc+harness",
-            "level_claimed": {"category": "model_checking", "text": c["text"] + (WALK_TEXT % WALK_OWNERS[pid] if pid in WALK_OWNERS else ""), "design_ref": "DESIGN.md section " + c["ref"]},
+            "level_claimed": {"category": "model_checking", "text": c["text"] + (WALK_TEXT % WALK_OWNERS[pid] if pid in WALK_OWNERS else "") + EXTRA_TEXT.get(pid, ""), "design_ref": "DESIGN.md section " + c["ref"]},
             "level_note": c["note"],
             "technique": c["technique"],
         })
